@@ -12,7 +12,10 @@ PID = 'C04'
 HEADER = []
 T0 = 2000000000
 TIMEOUT = 600
-RULE = ('unc: random (now, check_interval, retry_interval in quarter seconds incl. the interval<=1 boundary, soft/hard, with/without '
+RULE = ('pcr: the REAL Checkable::ProcessCheckResult (local, origin null) under the virtual clock from the never-checked state: all result '
+        'histories of length <= 3 over {OK,WARNING,CRITICAL} x {host,service} x max_check_attempts {1,2,3} (covers every pre state type x '
+        'has-result x OK/non-OK x max 1/>1 combination) + random longer ones incl. passive results; next_check diffed against the '
+        'model with the interval of the POST-state; unc: random (now, check_interval, retry_interval in quarter seconds incl. the interval<=1 boundary, soft/hard, with/without '
         'result, offset < 2^31); run: n in 5..300 checkables (hosts and services), max_concurrent_checks in {1,2,8,64}, intervals '
         '50-400 ms, fast/slow/throwing/state-flipping commands, storms of pause/resume(+quick flip)/reschedule/force/enable/disable/'
         'period/create/delete at 100-400 ops/s, a third of the checkables calm (only reschedule/force) so that liveness windows span '
@@ -40,6 +43,36 @@ def unc_case(rnd, k):
         lines.append('sch_unc now=%d ci4=%d ri4=%d soft=%d hascr=%d off=%d' % (
             T0 + rnd.randint(0, 10 ** 6), pick(), pick(), rnd.randint(0, 1), rnd.randint(0, 1), off))
     return {'lines': lines, 'tags': {'family': 'unc'}}
+
+
+def pcr_case(kind, mx, ci4, ri4, off, hist, t0, fam='pcr'):
+    """real ProcessCheckResult from the never-checked state: hist = [(state, active)]"""
+    lines = ['sch_cnew now=%d kind=%s max=%d ci4=%d ri4=%d off=%d' % (t0, kind, mx, ci4, ri4, off)]
+    t = t0
+    for (st, act) in hist:
+        t += 7
+        lines.append('sch_cr now=%d state=%d active=%d' % (t, st, act))
+    return {'lines': lines, 'tags': {'family': fam}}
+
+
+def pcr_cases(rnd, nrand):
+    import itertools
+    cases = []
+    # every (pre state type x has-result x OK/non-OK x max 1/>1) combination, from the never-checked state:
+    # all histories of length <= 3 over {OK, WARNING, CRITICAL}, hosts and services, max in {1, 2, 3}
+    for kind in ('host', 'svc'):
+        for mx in (1, 2, 3):
+            for L in (1, 2, 3):
+                for h in itertools.product((0, 1, 2), repeat=L):
+                    ci4, ri4 = rnd.choice(((20, 8), (40, 5), (8, 20), (6, 6), (4, 2), (240, 40)))
+                    cases.append(pcr_case(kind, mx, ci4, ri4, rnd.randint(0, 2 ** 31 - 1), [(s, 1) for s in h],
+                                          T0 + rnd.randint(0, 10 ** 6), 'pcr-exhaustive'))
+    for _ in range(nrand):
+        hist = [(rnd.choice((0, 0, 1, 2, 2, 3)), 0 if rnd.random() < 0.15 else 1) for _ in range(rnd.randint(1, 12))]
+        cases.append(pcr_case(rnd.choice(('host', 'svc')), rnd.choice((1, 2, 3, 5)), rnd.choice((5, 8, 20, 40, 240, rnd.randint(1, 400))),
+                              rnd.choice((1, 4, 5, 8, 20, rnd.randint(1, 400))), rnd.randint(0, 2 ** 31 - 1), hist,
+                              T0 + rnd.randint(0, 10 ** 6), 'pcr-random'))
+    return cases
 
 
 def run_case(rnd, n, maxc, dur, rate=None):
@@ -81,16 +114,19 @@ def generate(seed, tier):
         cases.append(run_case(rnd, n, m, dur))
     for _ in range(nunc):
         cases.append(unc_case(rnd, k))
+    cases += pcr_cases(rnd, {'quick': 150, 'search': 100}.get(tier, 2000))
     return cases
 
 
 def canon(lines):
-    return [l for l in lines if l.startswith('unc ') or l.startswith('CRASH') or l.startswith('HANG') or l.startswith('HARNESS') or l.startswith('NOT-RUN')]
+    return [l for l in lines if l.startswith('unc ') or l.startswith('pcr ') or l.startswith('CRASH') or l.startswith('HANG') or l.startswith('HARNESS') or l.startswith('NOT-RUN')]
 
 
 def nontrivial(case, impl_lines):
     if case['lines'][0].startswith('sch_unc'):
         return True
+    if case['lines'][0].startswith('sch_cnew'):
+        return len(case['lines']) >= 2
     s = sum(1 for l in impl_lines if l.startswith('S '))
     p = sum(1 for l in impl_lines if l.startswith('P '))
     return s >= 50 and p >= 100
@@ -98,13 +134,15 @@ def nontrivial(case, impl_lines):
 
 def classify(case, detail, impl_lines):
     w = detail.split()[0] if detail else ''
+    if w == 'next-check' and 'after-result' in detail:
+        return 'next-check-after-result'   # deterministic (virtual clock) ProcessCheckResult case: replay always reproduces
     return {'single-flight': 'single-flight', 'concurrency': 'concurrency', 'twice': 'scheduled-twice', 'dropped': 'dropped',
             'not-removed': 'not-removed', 'next-check': 'next-check', 'liveness': 'liveness', 'forced': 'forced',
             'slot-leak': 'slot-leak', 'crash': 'crash'}.get(w, 'other')
 
 
 def keep_line(l):
-    return l.startswith('sch_run')
+    return l.startswith('sch_run') or l.startswith('sch_cnew')
 
 
 def extra_stats(cases, impl):
@@ -112,6 +150,10 @@ def extra_stats(cases, impl):
           'forced_requests': 0, 'max_hiccup_us': 0, 'max_lateness_us': 0, 'unc_lines': 0, 'runs': []}
     for c in cases:
         ls = impl.get(c['id'], [])
+        if c['lines'][0].startswith('sch_cnew'):
+            st['pcr_lines'] = st.get('pcr_lines', 0) + sum(1 for l in ls if l.startswith('pcr '))
+            st['pcr_first_result_soft'] = st.get('pcr_first_result_soft', 0) + (1 if ls and ls[0].startswith('pcr ') and ' ty=0 ' in ls[0] else 0)
+            continue
         if c['lines'][0].startswith('sch_unc'):
             st['unc_lines'] += sum(1 for l in ls if l.startswith('unc '))
             continue
